@@ -33,6 +33,11 @@ var c14StringPrefixAllowed = map[string]string{
 	"private/pkg/storage.getDiffPathForNotFound":   "label decoration of diff output, not bucket containment",
 }
 
+// base-name filters that are not bucket visibility decisions
+var c14NameFilterAllowed = map[string]string{
+	"private/pkg/storage/storagearchive.isAppleExtendedAttributesFile": "macOS tar/zip `._x` resource-fork entries are skipped when unpacking an archive: documented compromise of the archive reader, not of a bucket",
+}
+
 func runC14(c *Ctx) {
 	p := c.P
 	c.Rule("LOCKSET", "the memory bucket's object map is accessed under its lock and published only on Close", 5)
@@ -48,6 +53,7 @@ func runC14(c *Ctx) {
 		return
 	}
 	ruleLockset(c, "LOCKSET", pkMem, "bucket", "lock")
+	ruleOneCriticalSection(c, "LOCKSET", pkMem, "bucket", "lock")
 	// writers of the map across the package: Close of writeObjectCloser, Delete, DeleteAll
 	writers := map[string]bool{}
 	for _, f := range pkMem.Syntax {
@@ -168,6 +174,28 @@ func runC14(c *Ctx) {
 							c.Ob("PATHWISE-PREFIX", fr.ID()+"/strings."+fn.Name(), call.Pos(), true, false, "reviewed exception: %s", why)
 						} else {
 							c.Ob("PATHWISE-PREFIX", fr.ID()+"/strings."+fn.Name(), call.Pos(), false, true, "strings.%s applied to a path/prefix: `a/bc` would count as lying under prefix `a/b`", fn.Name())
+						}
+					}
+				}
+				// name-based visibility filters (added after seeded change C14-c): an object is visible iff it exists;
+				// hiding entries by the spelling of their base name makes Walk disagree with Get/Stat
+				if fn.Pkg().Path() == "strings" && (fn.Name() == "HasPrefix" || fn.Name() == "HasSuffix" || fn.Name() == "Contains" || fn.Name() == "EqualFold") && len(call.Args) == 2 {
+					onName := false
+					ast.Inspect(call.Args[0], func(m ast.Node) bool {
+						if nc, ok := m.(*ast.CallExpr); ok && len(nc.Args) == 0 {
+							if sel, ok := nc.Fun.(*ast.SelectorExpr); ok && sel.Sel.Name == "Name" {
+								if np := namedPath(qinfo.TypeOf(sel.X)); np == "io/fs.FileInfo" || np == "io/fs.DirEntry" || np == "os.FileInfo" || np == "os.DirEntry" {
+									onName = true
+								}
+							}
+						}
+						return true
+					})
+					if onName {
+						if why := c14NameFilterAllowed[fr.ID()]; why != "" {
+							c.Ob("PATHWISE-PREFIX", fr.ID()+"/name-filter", call.Pos(), true, false, "reviewed exception: %s", why)
+						} else {
+							c.Ob("PATHWISE-PREFIX", fr.ID()+"/name-filter", call.Pos(), false, true, "strings.%s on a directory entry's base name decides whether an object is visible: Walk would skip objects that Get and Stat return", fn.Name())
 						}
 					}
 				}
@@ -384,5 +412,64 @@ func runC14(c *Ctx) {
 			}
 		}
 		c.Ob("MEM-WALK-SORTED", "storagemem.bucket.Walk", wk.Decl.Pos(), ok && !inMap, true, "the callback runs inside a loop over the sorted path slice (sort dominates it; not inside a map range): %v", ok && !inMap)
+	}
+}
+
+// ruleOneCriticalSection (added after seeded change C14-b): in every method of typeName, all accesses to the
+// receiver's map fields happen in one critical section — no explicit (non-deferred) Unlock/RUnlock of lockField
+// lies on a path between two of them. A method that snapshots the keys, releases the lock and looks the keys up
+// again acts on a stale snapshot: a concurrent Delete makes Walk fail or skip, i.e. the bucket stops behaving like
+// a map observed at one instant.
+func ruleOneCriticalSection(c *Ctx, rule string, pk *packages.Package, typeName, lockField string) {
+	p := c.P
+	info := pk.TypesInfo
+	for _, fr := range p.FuncsOf(pk) {
+		if recvTypeName(fr.Decl) != typeName || fr.Decl.Recv == nil || len(fr.Decl.Recv.List[0].Names) == 0 || fr.Decl.Body == nil {
+			continue
+		}
+		recv := info.Defs[fr.Decl.Recv.List[0].Names[0]]
+		var accesses, unlocks []ast.Node
+		ast.Inspect(fr.Decl.Body, func(x ast.Node) bool {
+			switch n := x.(type) {
+			case *ast.CallExpr:
+				if sel, ok := n.Fun.(*ast.SelectorExpr); ok && (sel.Sel.Name == "RUnlock" || sel.Sel.Name == "Unlock") {
+					if inner, ok := sel.X.(*ast.SelectorExpr); ok && inner.Sel.Name == lockField && identObj(info, inner.X) == recv {
+						if _, isDefer := p.Parent(n).(*ast.DeferStmt); !isDefer {
+							unlocks = append(unlocks, n)
+						}
+					}
+				}
+			case *ast.SelectorExpr:
+				if identObj(info, n.X) == recv {
+					if v, ok := info.Uses[n.Sel].(*types.Var); ok && v.IsField() {
+						if _, isMap := v.Type().Underlying().(*types.Map); isMap {
+							accesses = append(accesses, n)
+						}
+					}
+				}
+			}
+			return true
+		})
+		if len(accesses) < 2 {
+			continue
+		}
+		g := p.CFGOf(fr.Decl.Body, info)
+		split := ""
+		for _, u := range unlocks {
+			before, after := false, false
+			for _, a := range accesses {
+				if g.Reachable(a, u) {
+					before = true
+				}
+				if g.Reachable(u, a) {
+					after = true
+				}
+			}
+			if before && after {
+				split = p.Pos(u.Pos())
+			}
+		}
+		c.Ob(rule, fr.ID()+"/one-critical-section", fr.Decl.Pos(), split == "", true,
+			"%d accesses to the guarded map(s) in one critical section (no explicit unlock between two of them): %v %s", len(accesses), split == "", split)
 	}
 }
